@@ -53,6 +53,17 @@ DEFAULTS = {
 }
 REGEXES = ["^A$", "^(A|B)$", "^[BCD]$", ".*", "^Z$", "B"]
 
+# values whose rendering differs per interface (ParseTemplates must render them for every mock on
+# that mock's own copy of the config)
+TEMPLATED = {
+    "dir": ["out/d@L_@N/{{.InterfaceName}}", "{{.InterfaceDir}}/x@L_@N{{.InterfaceName | lower}}", "out/d@L_@N_{{.Mock}}{{.InterfaceName}}",
+            "out/{{.SrcPackageName}}@L_@N/{{.InterfaceName}}"],
+    "filename": ["f@L_@N_{{.InterfaceName}}.go", "f@L_@N_{{.InterfaceFile | base}}", "{{.InterfaceName | lower}}@L_@N.go"],
+    "pkgname": ["pk@L_@N{{.InterfaceName | lower}}", "{{.SrcPackageName}}@L_@N"],
+    "structname": ["S@L_@N{{.InterfaceName}}", "{{.Mock}}@L_@N{{.InterfaceName}}"],
+    "template-schema": ["file://@BASE/probes/schema_{{.InterfaceName}}.json"],
+}
+
 PROBE = r'''// PROBE @ID@
 package {{.PkgName}}
 
@@ -101,6 +112,8 @@ def make_fixture(ctx):
     for i in range(NPROBE):
         (pr / ("probe_%d.templ" % i)).write_text(PROBE.replace("@ID@", str(i)))
         (pr / ("probe_%d.templ.schema.json" % i)).write_text('{"type": "object"}\n')
+    for n in sorted({x for l in SRC.values() for x in l}):
+        (pr / ("schema_%s.json" % n)).write_text(json.dumps({"type": "object", "properties": {"rej_%s" % n: {"type": "string"}}}))
     for j in range(NSCHEMA):
         # schema_j rejects a template-data map whose key rej_j is present and not a string
         (pr / ("schema_%d.json" % j)).write_text(json.dumps({"type": "object", "properties": {"rej_%d" % j: {"type": "string"}}}))
@@ -130,6 +143,7 @@ class Gen:
     def __init__(self, rng, base, stream):
         self.rng, self.base, self.stream = rng, base, stream
         self.n = 0
+        self.ptempl = 0.6 if stream == "templated" else 0.12
         self.levels = {}         # level id -> small int used inside markers
 
     def lid(self, level):
@@ -143,6 +157,8 @@ class Gen:
 
     def marker(self, key, level, ownfile):
         r, n, L = self.rng, self.fresh(), self.lid(level)
+        if key in TEMPLATED and r.random() < self.ptempl:
+            return r.choice(TEMPLATED[key]).replace("@L", str(L)).replace("@N", str(n)).replace("@BASE", str(self.base))
         if key == "dir":
             return "out/d%d_%d" % (L, n)
         if key == "filename":
@@ -212,19 +228,24 @@ def gen_case(rng, base, stream):
     case = {"stream": stream, "env": new_cfg(), "file": new_cfg(), "flags": {}, "pkgs": {}, "existing": [],
             "schemas": {}, "tdkeys": None}
     # ---- skeleton
+    templ = stream == "templated"
     if stream == "leak":
         names = ["p", "p/sub", "q"] + (["r"] if r.random() < 0.4 else [])
+    elif templ:
+        # several interfaces per package that are NOT listed (or listed without a config of their own):
+        # they all derive their config from the same package-level object
+        names = r.choice([["p"], ["q"], ["p", "q"], ["p", "p/sub"], ["q", "p/sub"]])
     else:
         names = r.sample(["p", "q", "r", "p/sub"], r.choice([1, 2, 2, 3]))
     r.shuffle(names)
     for rel in names:
         pk = {"config": new_cfg() if r.random() < 0.8 else None, "interfaces": None}
-        k = r.choice([0, 1, 1, 2, 3])
+        k = r.choice([0, 0, 1, 2] if templ else [0, 1, 1, 2, 3])
         if k:
             pk["interfaces"] = {}
             for name in r.sample(SRC[rel], min(k, len(SRC[rel]))):
-                ic = {"config": new_cfg() if r.random() < 0.65 else None, "configs": None}
-                nc = r.choice([0, 0, 1, 2, 2, 3])
+                ic = {"config": new_cfg() if r.random() < (0.3 if templ else 0.65) else None, "configs": None}
+                nc = r.choice([0, 0, 0, 1] if templ else [0, 0, 1, 2, 2, 3])
                 if nc:
                     ic["configs"] = [new_cfg() for _ in range(nc)]
                 if ic["config"] is None and ic["configs"] is None and r.random() < 0.5:
@@ -258,7 +279,7 @@ def gen_case(rng, base, stream):
     else:
         case["file"]["ptr"]["template"] = probe_url(base, 0)
     # ---- selection: make sure something is generated
-    sel = r.random()
+    sel = r.random() * (0.6 if templ else 1.0)
     if sel < 0.45:
         case["file"]["ptr"]["all"] = True
     elif sel < 0.6:
@@ -281,7 +302,7 @@ def gen_case(rng, base, stream):
         if case["pkgs"][MOD + "/p"]["config"] is None:
             case["pkgs"][MOD + "/p"]["config"] = new_cfg()
         case["pkgs"][MOD + "/p"]["config"]["ptr"]["recursive"] = True
-    elif r.random() < 0.25:
+    elif r.random() < (0.4 if templ else 0.25):
         where = r.random()
         if where < 0.5 and case["pkgs"].get(MOD + "/p") and case["pkgs"][MOD + "/p"]["config"] is not None:
             case["pkgs"][MOD + "/p"]["config"]["ptr"]["recursive"] = True
@@ -308,9 +329,11 @@ def gen_case(rng, base, stream):
                     c["ptr"][key] = g.marker(key, lv, False)
             continue
         general = kind in ("env", "file", "pkg")
-        ownfile = (not general) and r.random() < 0.5
+        ownfile = (not general) and not templ and r.random() < 0.5
         for key in PER_MOCK:
             p = {"dir": 0.3, "filename": 0.35, "pkgname": 0.3, "structname": 0.45}[key]
+            if templ and general:
+                p = {"dir": 0.55, "filename": 0.45, "pkgname": 0.25, "structname": 0.45}[key]
             if ownfile and key == "filename":
                 p = 1.0
             if not general and not ownfile and key != "structname":
@@ -424,6 +447,8 @@ def finish_case(case, base, rng):
             if u:
                 urls.add(u)
         for u in sorted(urls):
+            if "{{" in u:
+                continue
             j = int(re.search(r"schema_(\d+)\.json$", u).group(1))
             if rng.random() < 0.2:
                 # point the level at a missing file instead
@@ -447,6 +472,8 @@ def finish_case(case, base, rng):
         if u and u not in case["schemas"]:
             m = re.search(r"schema_(\d+)\.json$", u)
             case["schemas"][u] = ["rej_%s" % m.group(1)] if m else None
+    for n in sorted({x for l in SRC.values() for x in l}):
+        case["schemas"]["file://%s/probes/schema_%s.json" % (base, n)] = ["rej_%s" % n]
     for i in range(NPROBE):
         case["schemas"][probe_url(base, i) + ".schema.json"] = []
     case["schemas"]["matryer.schema.json"] = []     # embedded schema of the built-in template (the stream writes only its keys)
@@ -699,12 +726,13 @@ def chain_rt(chain):
 
 
 def subst_defaults(v, rel, iface):
-    if v == "{{.InterfaceDir}}":
-        return rel
-    if v == "{{.Mock}}{{.InterfaceName}}":
-        return "Mock" + iface
-    if v == "{{.SrcPackageName}}":
-        return rel.split("/")[-1]
+    """Rendering of a templated value for one interface (the variables the generator uses)."""
+    if not isinstance(v, str) or "{{" not in v:
+        return v
+    name = rel.split("/")[-1]
+    for tok, val in (("{{.InterfaceName | lower}}", iface.lower()), ("{{.InterfaceName}}", iface), ("{{.Mock}}", "Mock"),
+                     ("{{.SrcPackageName}}", name), ("{{.InterfaceDir}}", rel), ("{{.InterfaceFile | base}}", name + ".go")):
+        v = v.replace(tok, val)
     return v
 
 
@@ -752,8 +780,9 @@ def expected(case):
                             ([chain + rec, [c, ic.get("config"), pk["config"]] + rec + top] if rec else [])]
                 for key in PER_MOCK + PER_FILE:
                     m[key] = first_set(chain, key)
-                for key in ("dir", "structname", "pkgname"):
-                    m[key] = subst_defaults(m[key], rel, name)
+                for key in ("dir", "filename", "structname", "pkgname", "template-schema"):
+                    if m[key] != "{{.Template}}.schema.json":
+                        m[key] = subst_defaults(m[key], rel, name)
                 if m["template-schema"] == "{{.Template}}.schema.json":
                     m["template-schema"] = m["template"] + ".schema.json"
                 m["path"] = m["dir"] + "/" + m["filename"]
@@ -1141,11 +1170,16 @@ def coq_gen(case, base, obs):
 
 def case_term(case, base, obs):
     ex = []
+    templated = {"{{.InterfaceDir}}", "{{.Mock}}{{.InterfaceName}}", "{{.SrcPackageName}}"}
+    for lv, c in all_levels(case):
+        for k in ("dir", "filename", "structname", "pkgname", "template-schema"):
+            v = c["ptr"].get(k)
+            if isinstance(v, str) and "{{" in v and v != "{{.Template}}.schema.json":
+                templated.add(v)
     for rel, ifaces in SRC.items():
         ex.append("(%s, %s)" % (coq_bytes(MOD + "/" + rel), coq_list(
-            "(%s, [(%s, %s); (%s, %s); (%s, %s)])"
-            % (coq_bytes(n), coq_bytes("{{.InterfaceDir}}"), coq_bytes(rel), coq_bytes("{{.Mock}}{{.InterfaceName}}"), coq_bytes("Mock" + n),
-               coq_bytes("{{.SrcPackageName}}"), coq_bytes(rel.split("/")[-1])) for n in ifaces)))
+            "(%s, %s)" % (coq_bytes(n), coq_list("(%s, %s)" % (coq_bytes(t), coq_bytes(subst_defaults(t, rel, n))) for t in sorted(templated)))
+            for n in ifaces)))
     names = sorted({n for l in SRC.values() for n in l})
     pats = sorted({x for lv, c in all_levels(case) for x in (c["esr"] or [])})
     paths = [MOD + "/" + rel for rel in SRC]
@@ -1238,7 +1272,7 @@ def shrink(ctx, base, case, fails):
 
 
 # ------------------------------------------------------------------ the check
-STREAMS_QUICK = [("main", 105), ("conflict", 8), ("malformed", 12), ("schema", 26), ("force", 20), ("leak", 20), ("builtin", 20)]
+STREAMS_QUICK = [("main", 95), ("templated", 24), ("conflict", 8), ("malformed", 12), ("schema", 24), ("force", 18), ("leak", 20), ("builtin", 18)]
 
 
 def schema_per_template_ok(exp):
@@ -1282,12 +1316,10 @@ def gen_valid(rng, base, stream):
         c["stream"] = stream
         e = expected(c)
         if stream == "conflict":
-            if e["kind"] == "err" and schema_per_template_ok(e):
+            if e["kind"] == "err":
                 return finish_case(c, base, rng)
         elif e["kind"] == "ok" and e["mocks"]:
-            c = finish_case(c, base, rng)
-            if schema_per_template_ok(expected(c)):
-                return c
+            return finish_case(c, base, rng)
     c["stream"] = "fallback"
     for lv, cfg in all_levels(c):
         cfg["ptr"].pop("template-schema", None)
